@@ -25,8 +25,8 @@ func init() {
 			"C04.R1 FRAME rule (E3) on the Lancero block assembly",
 			"C04.R2 dependence of every buffer index on the channel-to-readout table, in the block assembly and in helpers handed the buffers; the mixer object Mix[k] is applied to buffers[table[k]] and buffers[table[k-1]] (or to a channel-ordered view filled from the table); polynomial form of the table fill",
 			"C04.R3 nil-guard of map lookups; provenance of the row count; E3 form of the recorded count; the counter in it is read before any advance of the counter (store or helper call) can have happened; edge detection shape",
-			"C04.R4 E5 carried state and sibling agreement in the feedback mixer; saturation arms",
-			"C04.R5 E3 form of the demultiplexing copy and of the released byte count",
+			"C04.R4 E5 carried state in the feedback mixer: every loop that writes outputs refreshes the carried sample; the scale is compared with zero by == / != only; saturation arms (also in a helper that returns the limits)",
+			"C04.R5 E3 form of the demultiplexing copy and of the released byte count (also through a releasing helper; a device field added to the release is a deferred skip count and must be cleared by the helper after the release)",
 			"C04.R6 ownership of the carried sample: the carried-sample field is stored only by the mixer's methods (or on a fresh object); the source's table of mixer objects and its elements are assigned only in functions the running data loop (getNextBlock and what it starts) cannot reach",
 		},
 		Assumptions: []string{"LanceroSource / Mix field names (chan2readoutOrder, devices, active, lastFb, errorScale, externalTriggerLastState) are name-keyed anchors"},
